@@ -23,7 +23,15 @@ def one_case(col: Collector, rng, index: int, prop: str, max_tasks: int, emphasi
     else:
         allow_none = rng.random() < 0.04
         reorder = rng.random() < 0.15
+    # mixed-accelerator class: every host has a gpu worker next to cpu workers and about half of the tasks need a gpu, so that
+    # one scheduling round assigns gpu and cpu consumers of the same remote dataset to one host (two assignment passes)
+    gpu_mix = rng.random() < 0.2
+    if gpu_mix and shape is None:
+        shape = rng.choice(["diamond", "diamond", "wide", "layered", "triangular"])
     js = gen_jobspec(rng, max_tasks=rng.choice([4, 8, max_tasks]), shape=shape, allow_none=allow_none)
+    if gpu_mix:
+        for t in js["tasks"].values():
+            t["needs_gpu"] = rng.random() < 0.45
     if emphasis == "data" and js["order"]:
         # replication classes: requested outputs that are also consumed (possibly on other hosts), many consumers
         all_ds = [(t, o) for t in js["order"] for o in js["tasks"][t]["outputs"]]
@@ -33,6 +41,9 @@ def one_case(col: Collector, rng, index: int, prop: str, max_tasks: int, emphasi
     env = gen_env(rng, js, max_hosts=4, max_workers=4)
     if emphasis == "liveness" and rng.random() < 0.2:
         env = {"h0": [(f"w{i}", 1 if i == 0 and any(t["needs_gpu"] for t in js["tasks"].values()) else 0) for i in range(rng.randint(1, 4))]}
+    if gpu_mix:
+        env = {f"h{h}": [("w0", 1), ("w1", 0)] + [(f"w{2 + i}", rng.choice([0, 1])) for i in range(rng.randint(0, 2))] for h in range(rng.randint(2, 3))}
+        col.count("runs_mixed_gpu_class")
     policy = rng.choice(sc.POLICIES)
     out = sc.run_case(js, env, rng, policy, reorder=reorder)
     b = out["bridge"]
